@@ -3,3 +3,9 @@ CLAIMED["C03"] = (
     "Theorems in coq/Props/C03.v about the pair-extraction slices translated from _transitions_helper on every run and the hand model of assigns_to_counts; the model is run against the real assigns_to_counts on generated trajectory sets (ragged, padded, reordered, split).",
     "translator/tr_counts.py; modelled not verified: coo_matrix duplicate summation and the -1 mask.",
     "DESIGN.md 7 C03")
+
+CLAIMED["C20"] = (
+    "Coq proof over a model regenerated from source (translator) + differential correspondence evaluated in Coq",
+    "Theorems in coq/Props/C20.v: the translated is_buffered_transition equals 'angle left the widened basin' for the library's three boundary sets, every state, every accepted buffer width and every off-gate angle (finite case split closed by lra), the translated _rotamers run equals the specification automaton by induction over the angle history, zero buffer is binning, states are valid; transition bookkeeping characterised exactly. The generated model is run against the real _rotamers / disorder.transitions.",
+    "translator/tr_rotamer.py, py2coq.py; loop skeleton Base/RotamerBase.v checked by correspondence only; np.digitize modelled.",
+    "DESIGN.md 7 C20")
